@@ -125,7 +125,7 @@ func ruleRelevantIndexStored(c *report.Ctx) {
 		walks := false
 		an.Instrs(f, func(in ssa.Instruction) {
 			if fa, ok := in.(*ssa.FieldAddr); ok {
-				if st := derefStructT(fa.X.Type()); st != nil && st.Field(fa.Field).Name() == "RelevantTxOut" {
+				if st := derefStructT(fa.X.Type()); st != nil && an.FName(st, fa.Field) == "RelevantTxOut" {
 					walks = true
 				}
 			}
@@ -144,7 +144,7 @@ func ruleRelevantIndexStored(c *report.Ctx) {
 				return
 			}
 			stt := derefStructT(fa.X.Type())
-			if stt == nil || stt.Field(fa.Field).Name() != "vout" {
+			if stt == nil || an.FName(stt, fa.Field) != "vout" {
 				return
 			}
 			n++
@@ -282,7 +282,7 @@ func ruleMemoGuardField(c *report.Ctx) {
 			if !ok || fa.X != ssa.Value(f.Params[0]) {
 				return
 			}
-			filled := derefStructT(fa.X.Type()).Field(fa.Field).Name()
+			filled := an.FName(derefStructT(fa.X.Type()), fa.Field)
 			// guard: a comparison of a receiver field with "" / nil
 			var tested []string
 			for _, a := range p.GuardsOf(in) {
@@ -295,7 +295,7 @@ func ruleMemoGuardField(c *report.Ctx) {
 					if !ok || fa2.X != ssa.Value(f.Params[0]) {
 						continue
 					}
-					tested = append(tested, derefStructT(fa2.X.Type()).Field(fa2.Field).Name())
+					tested = append(tested, an.FName(derefStructT(fa2.X.Type()), fa2.Field))
 				}
 			}
 			if len(tested) == 0 {
@@ -547,7 +547,7 @@ func ruleFlagsBeforeFilter(c *report.Ctx) {
 			return
 		}
 		if fa, ok := st.Addr.(*ssa.FieldAddr); ok {
-			if stt := derefStructT(fa.X.Type()); stt != nil && stt.Field(fa.Field).Name() == "SpentByUnmined" && instrDominates(in, cb) {
+			if stt := derefStructT(fa.X.Type()); stt != nil && an.FName(stt, fa.Field) == "SpentByUnmined" && instrDominates(in, cb) {
 				flagOK = true
 			}
 		}
@@ -1145,7 +1145,7 @@ func ruleGapLimitUnmodified(c *report.Ctx) {
 				return
 			}
 			stt := derefStructT(fa.X.Type())
-			if stt == nil || stt.Field(fa.Field).Name() != "AddressGapLimit" {
+			if stt == nil || an.FName(stt, fa.Field) != "AddressGapLimit" {
 				return
 			}
 			if nn := an.NamedOf(fa.X.Type()); nn != nil && strings.Contains(nn.Obj().Name(), "Settings") {
@@ -1181,7 +1181,7 @@ func ruleExternalScanAlwaysRuns(c *report.Ctx) {
 			return
 		}
 		fa, ok := st.Addr.(*ssa.FieldAddr)
-		if !ok || derefStructT(fa.X.Type()).Field(fa.Field).Name() != "ExternalChildNum" {
+		if !ok || an.FName(derefStructT(fa.X.Type()), fa.Field) != "ExternalChildNum" {
 			return
 		}
 		if k, isK := constInt(st.Val); !isK || k != 1 {
